@@ -67,6 +67,7 @@ def run(repo, rep, tier):
                   'entry point or reset in a finally')
     _r9_cache_after_commit(repo, rep)
     _r10_reported_file_is_opened_file(repo, rep)
+    _r11_cache_key_is_target_namespace(repo, rep)
     mod = repo.module(MOF)
     mc = repo.cls(MOF, 'MOFCompiler')
     actions = [f for n, f in mod.functions.items()
@@ -826,3 +827,46 @@ def _r10_reported_file_is_opened_file(repo, rep):
                     '(OSError although no file is missing)'
                     % (norm(opens[0].args[0]),
                        norm(given) if given is not None else '(none)'))
+
+
+def _r11_cache_key_is_target_namespace(repo, rep):
+    """C09.R11: where a function selects the target namespace of the parser
+    (`parser.target_namespace = X`) and makes sure the per-namespace tables
+    exist (`parser.qualcache[K] = NocaseDict()`, `parser.classnames[K] =
+    []`), K is X.  The grammar actions index the tables with
+    `target_namespace or default_namespace`; a table created under another
+    key (e.g. the un-defaulted None) makes a valid compile fail with a bare
+    KeyError."""
+    r11 = rep.rule('C09.R11', 'per-namespace parser tables are created for '
+                   'the namespace that is made the target')
+    mod = repo.module(MOF)
+    for f in mod.all_funcs():
+        tgt = [n for n in walk_no_nested(f.node) if isinstance(n, ast.Assign)
+               and (dotted(n.targets[0]) or '').endswith(
+                   'parser.target_namespace') and
+               not (isinstance(n.value, ast.Constant) and
+                    n.value.value is None)]
+        inits = [n for n in walk_no_nested(f.node) if isinstance(n, ast.Assign)
+                 and isinstance(n.targets[0], ast.Subscript) and
+                 (dotted(n.targets[0].value) or '').split('.')[-1] in (
+                     'qualcache', 'classnames') and
+                 'parser' in (dotted(n.targets[0].value) or '')]
+        if not tgt or not inits:
+            continue
+        r11.sites += 1
+        r11.functions.add(f.fq)
+        x = norm(tgt[-1].value)
+        keys = {norm(n.targets[0].slice) for n in inits}
+        ok = keys == {x}
+        r11.ob(ok, f.qualname, {'target_namespace': x, 'keys': sorted(keys)})
+        if not ok:
+            rep.finding(r11, f.qualname, 'target_namespace = %s' % x,
+                        'other-key', MOF, tgt[-1].lineno,
+                        'the target namespace is set to %s but the '
+                        'per-namespace tables are created under %s: the '
+                        'grammar actions look them up under the effective '
+                        'target namespace and raise KeyError for valid MOF '
+                        '(e.g. ns=None after the default namespace of the '
+                        'connection was changed)' % (x, sorted(keys)))
+    if r11.sites < 3:
+        raise AnalysisError('C09.R11: only %d sites' % r11.sites)
